@@ -462,6 +462,9 @@ def run(chk):
     run_w1(chk, P, union, routines)
     run_w2(chk, P)
     run_w3(chk)
+    # in-place = out-of-place, C AEAD clause: the authenticator is fed from the buffer that holds the ciphertext in either layout
+    from . import aead
+    aead.rule_mac_source(chk, P, 'A1', floor=16)
 
 
 if __name__ == '__main__':
